@@ -1,0 +1,51 @@
+//go:build verif
+
+// Contracts checked by /verif/govc (comment-only file; see /verif/DESIGN.md, property C27).
+package cl
+
+//@ # rk: the height of a grammar expression tree; wfA: every CHAR literal in it has its two quotes (what the TPL
+//@ # scanner delivers for a CHAR token it accepted). Both are about the tree handed over by tpl/parser.
+//@ ufunc rk(e ast.Expr) int
+//@ ufunc wfA(e ast.Expr) bool
+//@ axiom rkNonNeg := forall e ast.Expr :: rk(e) >= 0
+//@ axiom manual wfAUnfold := forall e ast.Expr :: wfA(e) ==> e != nil &&
+//@        (istype(e, *ast.Ident) ==> e.(*ast.Ident) != nil) &&
+//@        (istype(e, *ast.BasicLit) ==> e.(*ast.BasicLit) != nil && (e.(*ast.BasicLit).Kind == token.CHAR ==> len(e.(*ast.BasicLit).Value) >= 2)) &&
+//@        (istype(e, *ast.Sequence) ==> e.(*ast.Sequence) != nil && (forall k in 0..len(e.(*ast.Sequence).Items) :: wfA(e.(*ast.Sequence).Items[k]) && rk(e.(*ast.Sequence).Items[k]) < rk(e))) &&
+//@        (istype(e, *ast.Choice) ==> e.(*ast.Choice) != nil && (forall k in 0..len(e.(*ast.Choice).Options) :: wfA(e.(*ast.Choice).Options[k]) && rk(e.(*ast.Choice).Options[k]) < rk(e))) &&
+//@        (istype(e, *ast.UnaryExpr) ==> e.(*ast.UnaryExpr) != nil && e.(*ast.UnaryExpr).X != nil && wfA(e.(*ast.UnaryExpr).X) && rk(e.(*ast.UnaryExpr).X) < rk(e)) &&
+//@        (istype(e, *ast.BinaryExpr) ==> e.(*ast.BinaryExpr) != nil && e.(*ast.BinaryExpr).X != nil && e.(*ast.BinaryExpr).Y != nil && wfA(e.(*ast.BinaryExpr).X) && rk(e.(*ast.BinaryExpr).X) < rk(e) &&
+//@             wfA(e.(*ast.BinaryExpr).Y) && rk(e.(*ast.BinaryExpr).Y) < rk(e))
+//@
+//@ # the error sink: thin wrappers around fmt.Sprintf and errors.List.Add (ASSUMED: they record and return)
+//@ pred sameOrFresh(ctx *context) := (fresh(ctx.errs) || samearray(ctx.errs, old(ctx.errs))) && (fresh(ctx.choices) || samearray(ctx.choices, old(ctx.choices)))
+//@ trusted (*context).addErrorf
+//@   requires p != nil
+//@   assigns p.errs, elems(p.errs)
+//@   ensures fresh(p.errs) || samearray(p.errs, old(p.errs))
+//@ trusted (*context).addError
+//@   requires p != nil
+//@   assigns p.errs, elems(p.errs)
+//@   ensures fresh(p.errs) || samearray(p.errs, old(p.errs))
+//@
+//@ func tokenExpr
+//@   requires ctx != nil && expr != nil
+//@   assigns ctx.errs, elems(ctx.errs)
+//@   ensures result1 ==> result0 != nil
+//@   ensures fresh(ctx.errs) || samearray(ctx.errs, old(ctx.errs))
+//@
+//@ func checkToken
+//@   option pure_funcs yes
+//@   assigns nothing
+//@
+//@ func compileExpr
+//@   requires ctx != nil && wfA(expr)
+//@   assigns ctx.errs, elems(ctx.errs), ctx.choices, elems(ctx.choices)
+//@   decreases rk(expr)
+//@   ensures [ok-has-matcher] result1 ==> result0 != nil
+//@   ensures [arrays] sameOrFresh(ctx)
+//@   use wfAUnfold(expr)
+//@ loop compileExpr#1
+//@   invariant ctx != nil && len(items) == len(expr.Items) && fresh(items) && expr != nil && sameOrFresh(ctx)
+//@ loop compileExpr#2
+//@   invariant ctx != nil && len(options) == len(expr.Options) && fresh(options) && expr != nil && sameOrFresh(ctx)
